@@ -2,7 +2,7 @@ import os
 import socket
 import struct
 from typing import Optional
-from urllib.parse import unquote, urlparse
+from urllib.parse import unquote, urlparse, urlsplit
 from ._exceptions import WebSocketProxyException
 
 """
@@ -42,7 +42,9 @@ def parse_url(url: str) -> tuple:
 
     scheme, url = url.split(":", 1)
 
-    parsed = urlparse(url, scheme="http")
+    # urlsplit, not urlparse: ";params" of the last path segment belong to the
+    # path and must stay in the resource
+    parsed = urlsplit(url, scheme="http")
     if parsed.hostname:
         hostname = parsed.hostname
     else:
